@@ -422,6 +422,13 @@ func (g *gen) rawExpr(k kind, depth int, class string) string {
 		case 4:
 			if g.pct("inflect", 50) {
 				g.feat("inflection")
+				if g.pct("pathfor", 20) {
+					g.feat("path_for")
+					if g.pct("pathforstruct", 50) {
+						return "pathFor(car)"
+					}
+					return "pathFor(" + g.expr(kStr, depth-1, "go-helper-arg") + ")"
+				}
 				h := []string{"upcase", "downcase", "capitalize", "pluralize", "singularize", "camelize", "dasherize", "underscore", "ordinalize"}[g.intn("infl", 0, 8)]
 				return h + "(" + g.expr(kStr, depth-1, "go-helper-arg") + ")"
 			}
@@ -1438,6 +1445,8 @@ func (g *gen) failingPiece() {
 		{"string-minus", `s1 - 1`},
 		{"index-equals-length", "xs[3]"},
 		{"index-a-number", "n1[0]"},
+		{"pathFor-of-int", "pathFor(n1)"},
+		{"groupBy-size-zero", "groupBy(0, xs)"},
 		{"method-on-unknown-identifier", "zq.Greet(1)"},
 		{"member-of-unknown-identifier", "zq.Name"},
 		{"index-of-unknown-identifier", "zq[0]"},
